@@ -203,16 +203,20 @@ def lzss_rules(ctx):
     params = [c['name'] for c in fast['inner'] if c.get('kind') == 'ParmVarDecl']
     srcname = params[0]
     # the token dispatch: if (flags & 1) literal else backref
-    tok_if = None
+    tok_if, negated = None, False
     for n in c_walk(body):
         if n.get('kind') == 'IfStmt':
-            cond = c_strip(n['inner'][0])
+            cond, neg = c_strip(n['inner'][0]), False
+            while cond.get('kind') == 'UnaryOperator' and cond.get('opcode') == '!':
+                cond, neg = c_strip(cond['inner'][0]), not neg
+            if cond.get('kind') == 'BinaryOperator' and cond.get('opcode') == '==' and c_strip(cond['inner'][1]).get('value') == '0':
+                cond, neg = c_strip(cond['inner'][0]), not neg
             if cond.get('kind') == 'BinaryOperator' and cond.get('opcode') == '&' and c_strip(cond['inner'][1]).get('value') == '1':
-                tok_if = n
+                tok_if, negated = n, neg
                 flags_c = c_name(cond['inner'][0])
     if tok_if is None or len(tok_if['inner']) < 3:
         raise AnalysisError('decoder: token dispatch `if (flags & 1) ... else ...` not found')
-    lit_block, ref_block = tok_if['inner'][1], tok_if['inner'][2]
+    lit_block, ref_block = (tok_if['inner'][2], tok_if['inner'][1]) if negated else (tok_if['inner'][1], tok_if['inner'][2])
 
     # the output position variable of the decoder: the one the stores of a token are relative to (from the symbolic execution of the token step, not from its name)
     try:
